@@ -7,13 +7,18 @@ import (
 	"fmt"
 	"os"
 
+	"verifharness/internal/c05"
 	"verifharness/internal/c17"
 	"verifharness/internal/pc"
 	"verifharness/internal/rcv"
 	"verifharness/internal/rep"
+	"verifharness/internal/sigs"
 )
 
 var commands = map[string]func(args []string) *rep.Report{
+	"c03": sigs.RunC03,
+	"c05": c05.Run,
+	"c18": sigs.RunC18,
 	"c17": c17.Run,
 	"c06": pc.Run,
 	"c07": pc.RunReaders,
